@@ -162,6 +162,25 @@ pub fn gen(tier: &str, rng: &mut Rng, out: &mut Vec<String>) {
             out.push(format!("c07.txeval {} 0 ~ ~ ~ ~ {} {} 1000 1", hexd(&m), hexd(&b), idx));
         }
     }
+    // two signature checks in ONE script against the real transaction checker (they share its SigHashCache): every ordered pair
+    // of sighash types, well-formed DER (r = s = 1) under a valid public key, so that the first check answers false and the
+    // evaluation goes on to the second
+    {
+        let g: Vec<u8> = hex::decode("0279be667ef9dcbbac55a06295ce870b07029bfcdb2dce28d959f2815b16f81798").unwrap();
+        let types = [0x41u8, 0x42, 0x43, 0xc1, 0xc2, 0xc3, 0x01, 0x02, 0x03, 0x81, 0x82, 0x83];
+        for t1 in types { for t2 in types {
+            let mut sc = vec![];
+            for (k, ty) in [t1, t2].iter().enumerate() {
+                let sig = vec![0x30, 0x06, 0x02, 0x01, 0x01, 0x02, 0x01, 0x01, *ty];
+                push_with(&mut sc, &sig, 0); push_with(&mut sc, &g, 0); sc.push(0xac);
+                if k == 0 { sc.push(0x75); }
+            }
+            for (nin, nout, idx) in [(2usize, 2usize, 0usize), (2, 2, 1), (3, 1, 2)] {
+                let (tx, _) = gen_tx_shape(rng, nin, nout); let mut b = vec![]; tx.write(&mut b).unwrap();
+                out.push(format!("c07.txeval {} 0 ~ ~ ~ ~ {} {} 1000 {}", hexd(&sc), hexd(&b), idx, (t1 as usize + idx) % 2));
+            }
+        } }
+    }
     // signature-check opcodes against the real transaction checker: separators without checksig bytes etc.
     let pats: [&[u8]; 8] = [&[0x51, 0x51, 0xad, 0xab], &[0x51, 0x51, 0xab, 0xad], &[0xab, 0x51, 0x51, 0xac], &[0x51, 0x51, 0xab, 0xab, 0xac], &[0x00, 0x00, 0x00, 0xab, 0xae], &[0x51, 0x51, 0xab, 0x01, 0xac, 0xad], &[0x02, 0xab, 0xab, 0x51, 0xad], &[0x01, 0x41, 0x51, 0xab, 0xad]];
     for p in pats.iter() { for fk in 0..2 { for flags in 0..2 {
